@@ -31,6 +31,8 @@ type parent struct {
 	quar        map[string]bool
 	hangConfirm map[string]int // key -> confirmed hangs
 	hangSeen    map[string]int // key -> suspects not re-confirmed because the key is already confirmed
+	inflight    map[string]chan struct{}
+	t0          time.Time
 	discs       map[string][]Disc
 	discCount   map[string]int
 	triples     map[string]int
@@ -91,6 +93,12 @@ func (p *parent) solo(c Case, shrink bool) soloResult {
 	p.mu.Lock()
 	p.soloRuns++
 	p.mu.Unlock()
+	tc := time.Now()
+	defer func() {
+		if os.Getenv("VERIF_C03_DEBUG") != "" {
+			fmt.Fprintf(os.Stderr, "[%6.1fs] solo %s ran %.1fs\n", time.Since(p.t0).Seconds(), c.ID, time.Since(tc).Seconds())
+		}
+	}()
 	res := common.RunChild("", "solo", p.scratch, []string{"VERIF_C03_SPEC=" + sf}, time.Duration(watch)*time.Millisecond+60*time.Second)
 	var sr soloResult
 	sr.child = res
@@ -118,15 +126,30 @@ func (p *parent) handleSuspect(batch string, c Case, why string, pending map[str
 		sig, _ = pending["sig"].(string)
 	}
 	key := "C03:" + op + ":" + sig + ":hang"
-	p.mu.Lock()
-	confirmed := p.hangConfirm[key]
 	limit := p.r.Pick(1, 2)
-	if pending != nil && confirmed >= limit {
-		p.hangSeen[key]++
+	for {
+		p.mu.Lock()
+		if pending != nil && p.hangConfirm[key] >= limit {
+			p.hangSeen[key]++
+			p.mu.Unlock()
+			return
+		}
+		ch, busy := p.inflight[key]
+		if !busy {
+			ch = make(chan struct{})
+			p.inflight[key] = ch
+			p.mu.Unlock()
+			defer func() {
+				p.mu.Lock()
+				delete(p.inflight, key)
+				p.mu.Unlock()
+				close(ch)
+			}()
+			break
+		}
 		p.mu.Unlock()
-		return
+		<-ch // another batch is confirming the same shape right now
 	}
-	p.mu.Unlock()
 	sr := p.solo(c, false)
 	switch {
 	case !sr.ok:
@@ -157,15 +180,20 @@ func (p *parent) handleSuspect(batch string, c Case, why string, pending map[str
 func (p *parent) runBatch(spec BatchSpec) {
 	spec.OutFile = p.file("out-" + spec.Name)
 	spec.CurFile = p.file("cur-" + spec.Name)
-	spec.WatchMs, spec.Ratio, spec.MemLimit = 1500, 1000, 700<<20
+	spec.WatchMs, spec.Ratio, spec.MemLimit = p.r.Pick(1500, 4000), 1000, 700<<20
 	defer os.Remove(spec.OutFile)
 	defer os.Remove(spec.CurFile)
+	deaths := 0 // consecutive children that died without a word
 	for attempt := 0; attempt < 400; attempt++ {
 		spec.Quar = p.quarList()
 		os.Remove(spec.OutFile)
 		sf := p.file("spec-" + spec.Name)
 		writeJSON(sf, spec)
+		tc := time.Now()
 		res := common.RunChild("", "batch", p.scratch, []string{"VERIF_C03_SPEC=" + sf}, time.Duration(p.r.Pick(240, 1500))*time.Second)
+		if os.Getenv("VERIF_C03_DEBUG") != "" {
+			fmt.Fprintf(os.Stderr, "[%6.1fs] batch %s from %d ran %.1fs exit=%d\n", time.Since(p.t0).Seconds(), spec.Name, spec.From, time.Since(tc).Seconds(), res.ExitCode)
+		}
 		os.Remove(sf)
 		os.Remove(res.OutPath)
 		recs, complete, _ := common.ReadJSONL(spec.OutFile)
@@ -191,6 +219,15 @@ func (p *parent) runBatch(spec BatchSpec) {
 		p.mu.Lock()
 		p.restarts++
 		p.mu.Unlock()
+		if suspect == nil && len(recs) == 0 {
+			deaths++
+			if deaths >= 3 {
+				p.r.Inconclusive(fmt.Sprintf("%s: three children in a row died without output (exit %d, timed out %v); batch abandoned at case %d. tail: %s", spec.Name, res.ExitCode, res.TimedOut, spec.From, tail(res.Output, 300)))
+				return
+			}
+		} else {
+			deaths = 0
+		}
 		if suspect != nil {
 			var c Case
 			buf, _ := json.Marshal(suspect["case"])
@@ -309,7 +346,7 @@ func main() {
 		return
 	}
 	r := common.Start("C03", "exploration")
-	p := &parent{r: r, scratch: common.Scratch("c03"), quar: map[string]bool{}, hangConfirm: map[string]int{}, hangSeen: map[string]int{},
+	p := &parent{r: r, scratch: common.Scratch("c03"), quar: map[string]bool{}, hangConfirm: map[string]int{}, hangSeen: map[string]int{}, inflight: map[string]chan struct{}{}, t0: time.Now(),
 		discs: map[string][]Disc{}, discCount: map[string]int{}, triples: map[string]int{}, ends: map[string]int{}}
 	defer os.RemoveAll(p.scratch)
 
@@ -336,21 +373,26 @@ func main() {
 	cal := &calibration{}
 	var calWG sync.WaitGroup
 	calWG.Add(1)
+	onlyA := os.Getenv("VERIF_C03_PHASES") == "A" // development aid: deterministic phase only
 	go func() {
 		defer calWG.Done()
-		cal.run(p, r.Pick(120, 3000), r.Pick(6, 300), r.Pick(3, 8))
+		if !onlyA {
+			cal.run(p, r.Pick(80, 1500), r.Pick(4, 150), r.Pick(5, 14))
+		}
 	}()
 
 	// phase A: deterministic grid + one smoke pass over every operator; establishes the quarantine
 	// list of (operator, signature) shapes with a confirmed hang
-	phaseA := []BatchSpec{
-		{Name: "grid", Kind: "grid", Seed: r.Seed, Count: 1 << 30},
-		{Name: "smoke", Kind: "smoke", Seed: r.Seed, Count: len(opGens()) * 8},
+	phaseA := []BatchSpec{{Name: "smoke", Kind: "smoke", Seed: r.Seed, Count: len(opGens()) * 8}}
+	nGrid := len(gridCases())
+	for i, chunks := 0, 4; i < chunks; i++ {
+		phaseA = append(phaseA, BatchSpec{Name: fmt.Sprintf("grid%d", i), Kind: "grid", Seed: r.Seed, From: nGrid * i / chunks, Count: nGrid * (i + 1) / chunks})
 	}
-	common.Parallel(len(phaseA), 2, func(i int) { p.runBatch(phaseA[i]) })
-
 	// phase B: random operator applications and compositions
-	nOps, nComp := r.Pick(24000, 900000), r.Pick(3000, 100000)
+	nOps, nComp := r.Pick(12000, 800000), r.Pick(2000, 80000)
+	if onlyA {
+		nOps, nComp = 0, 0
+	}
 	per := r.Pick(4000, 25000)
 	var phaseB []BatchSpec
 	for i, done := 0, 0; done < nOps; i, done = i+1, done+per {
@@ -359,8 +401,14 @@ func main() {
 	for i, done := 0, 0; done < nComp; i, done = i+1, done+per/2 {
 		phaseB = append(phaseB, BatchSpec{Name: fmt.Sprintf("comp%d", i), Kind: "comp", Seed: r.Seed*1000 + 500 + int64(i), Count: min(per/2, nComp-done)})
 	}
-	common.Parallel(len(phaseB), workers-1, func(i int) { p.runBatch(phaseB[i]) })
+	// one pool: the deterministic batches go first, so that hang confirmations (which establish the
+	// quarantine list) overlap with the random batches
+	all := append(phaseA, phaseB...)
+	t0 := time.Now()
+	common.Parallel(len(all), workers-1, func(i int) { p.runBatch(all[i]) })
+	r.Note("workload (grid, smoke, random applications and compositions; incl. hang confirmations) took %.1fs", time.Since(t0).Seconds())
 	calWG.Wait()
+	r.Note("TLC calibration finished %.1fs after the start of the workload", time.Since(t0).Seconds())
 
 	// report
 	keys := make([]string, 0, len(p.discs))
@@ -377,22 +425,23 @@ func main() {
 			r.Report(k, describe(ds[0]), ds[min(i, len(ds)-1)])
 		}
 	}
+	os.RemoveAll(p.scratch) // Finish exits the process: deferred clean-up would not run
 	distinct := len(p.triples)
 	extra := map[string]any{
-		"judged_library_calls":                  p.calls,
-		"calls_reference_declined":              p.unknown,
-		"calls_skipped_quarantined_or_too_big":  p.skipped,
-		"case_endings":                          p.ends,
-		"discrepancy_keys":                      p.discCount,
-		"discrepancies_by_class":                classCount,
-		"hangs_confirmed":                       p.hangConfirm,
+		"judged_library_calls":                   p.calls,
+		"calls_reference_declined":               p.unknown,
+		"calls_skipped_quarantined_or_too_big":   p.skipped,
+		"case_endings":                           p.ends,
+		"discrepancy_keys":                       p.discCount,
+		"discrepancies_by_class":                 classCount,
+		"hangs_confirmed":                        p.hangConfirm,
 		"hang_suspects_same_key_not_reconfirmed": p.hangSeen,
-		"quarantined_shapes":                    p.quarList(),
-		"child_restarts":                        p.restarts,
-		"solo_reruns":                           p.soloRuns,
-		"process_fatal_cases":                   p.fatal,
-		"operators_covered":                     opsCovered(p.triples),
-		"tlc_calibration":                       cal.summary(),
+		"quarantined_shapes":                     p.quarList(),
+		"child_restarts":                         p.restarts,
+		"solo_reruns":                            p.soloRuns,
+		"process_fatal_cases":                    p.fatal,
+		"operators_covered":                      opsCovered(p.triples),
+		"tlc_calibration":                        cal.summary(),
 	}
 	r.Finish(common.Coverage{
 		Evaluations:        p.cases,
